@@ -131,8 +131,11 @@ def frame_rule(ctx, rid, adt, sites, fn_key, must_same, text):
     ss = [s for s in sites if s.fn == fn_key]
     o = ctx.ob("%s.%s.frame" % (rid, short(fn_key)), "T2", fn_key, text)
     if not ss:
-        o.status = "anchor-missing"
-        o.detail = "no construction site of %s in %s" % (adt.split("::")[-1], fn_key)
+        if fn_key not in ctx.prog.bodies:
+            ctx.anchor_gone(o, fn_key)
+        else:
+            o.status = "anchor-missing"
+            o.detail = "no construction site of %s in %s" % (adt.split("::")[-1], fn_key)
         return
     bad = []
     for s in ss:
@@ -151,8 +154,7 @@ def who_may_call(ctx, oid, callee, allowed_prefixes, text, floor=1):
     """T8: every caller of `callee` lies inside the allowed impl / module prefixes"""
     o = ctx.ob(oid, "T8", callee, text)
     if callee not in ctx.prog.bodies:
-        o.status = "anchor-missing"
-        o.detail = "function %s not found" % callee
+        ctx.anchor_gone(o, callee)
         return []
     cs = callers_of(ctx.prog, callee)
     ctx.call_sites += len(cs)
